@@ -235,8 +235,16 @@ def _run_j(case):
   from harness import sched_exec
   from openhtf.core import phase_executor
   ec.setup()
+  sched_exec.install(False)
   saved = phase_executor._JOIN_TRY_INTERVAL_SECONDS
+  saved_fin = phase_executor.PhaseExecutorThread.__dict__.get('_thread_finished')
+  hdur = case.get('h', 0)
   try:
+    if hdur:
+      # the designated override point "called once _thread_proc has finished" takes hdur of virtual time
+      vt = sched.VTime()
+      phase_executor.PhaseExecutorThread._thread_finished = (
+          lambda self: vt.sleep(hdur / U) if self._phase_desc.name == 'p1' else None)
     phase_executor._JOIN_TRY_INTERVAL_SECONDS = (case['interval'] / U) if case['interval'] is not None else ec.ORIG_JOIN_INTERVAL
     d = case['d']
     a = {'t': 'P', 'id': 1, 'opts': {}, 'beh': [{'raw': 'cont', 'sleep': (d / U) if d is not None else 1e7}]}
@@ -247,6 +255,11 @@ def _run_j(case):
                               max_steps=400000)
   finally:
     phase_executor._JOIN_TRY_INTERVAL_SECONDS = saved
+    if hdur:
+      if saved_fin is None:
+        del phase_executor.PhaseExecutorThread._thread_finished
+      else:
+        phase_executor.PhaseExecutorThread._thread_finished = saved_fin
   times = out['ctx'].times
   t0, t1 = times.get((3, 0)), times.get((2, 0))
   p1 = [t for t in out['tokens'] if t.startswith('p1:')]
@@ -358,8 +371,8 @@ def encode(case, o):
     return 'C12 K %s # %s %s' % (' '.join(o['toks']), ' '.join(str(x) for x in o['real']), ' '.join(o['facts']))
   if k == 'J':
     t = o['t']
-    return 'C12 J %s %d %s # %s %s' % ('-' if case['timeout'] is None else case['timeout'], int(o['interval_used']),
-                                       'inf' if case['d'] is None else case['d'], o['res'],
+    return 'C12 J %s %d %s %d # %s %s' % ('-' if case['timeout'] is None else case['timeout'], int(o['interval_used']),
+                                          'inf' if case['d'] is None else case['d'], case.get('h', 0), o['res'],
                                        '?' if t is None or t != int(t) else int(t))
   if k == 'G':
     return 'C12 G %s # %s' % (ec.clean(ec.enc_test(case['test'])), ' '.join(o['tokens']))
@@ -378,7 +391,7 @@ def nontrivial_key(case, o):
   if case['kind'] == 'K':
     return ' '.join(o['toks'])
   if case['kind'] == 'J':
-    return '%s/%s/%s' % (case['timeout'], case['interval'], case['d'])
+    return '%s/%s/%s/%s' % (case['timeout'], case['interval'], case['d'], case.get('h', 0))
   if case['kind'] == 'G':
     return ec.clean(ec.enc_test(case['test']))
   return 'A%s' % case.get('rseed')
@@ -416,6 +429,10 @@ def gen_cases(rng, tier):
       k += 1
     for d in sorted(x for x in ds if x is None or x >= 0) if False else sorted([x for x in ds if x is not None and x >= 0]) + [None]:
       cases.append({'kind': 'J', 'timeout': timeout, 'interval': interval, 'd': d})
+      if d is not None and timeout - 3 <= d <= timeout + 1:
+        # the thread outlives its body (handlers take time): the deadline / a poll instant falls in between
+        for h in (1, 2, interval, interval + 1):
+          cases.append({'kind': 'J', 'timeout': timeout, 'interval': interval, 'd': d, 'h': h})
   # the default timeout (DEFAULT_PHASE_TIMEOUT_S) with the real poll interval
   for d in [16, 179 * 16, 180 * 16 - 1, 180 * 16, 180 * 16 + 1, 183 * 16, 184 * 16, None]:
     cases.append({'kind': 'J', 'timeout': None, 'interval': None, 'd': d})
@@ -423,7 +440,8 @@ def gen_cases(rng, tier):
     r = rng.derive('j%d' % i)
     timeout = r.choice([2, 7, 16, 33, 64])
     cases.append({'kind': 'J', 'timeout': timeout, 'interval': r.choice([1, 3, 4, 16, 50]),
-                  'd': r.choice([None] + list(range(0, timeout + 60))), 'rseed': r.getrandbits(32), 'switch': 0.3})
+                  'd': r.choice([None] + list(range(0, timeout + 60))), 'h': r.choice([0, 0, 1, 3, 9]),
+                  'rseed': r.getrandbits(32), 'switch': 0.3})
   # G: a timed-out phase at every position
   T = lambda i: _P(i, 'timeout')
   G = lambda s, m, td: {'t': 'G', 's': s, 'm': m, 'td': td}
